@@ -233,11 +233,13 @@ func MuxValue(c *dom.Ctx, p bdd.Node, a, b Value) Value {
 			nilc := c.M.Ite(p, x.Nil, y.Nil)
 			switch {
 			case x.Nil == bdd.True:
-				return &Ptr{Root: y.Root, Path: y.Path, Nil: nilc}
+				return &Ptr{Root: y.Root, Path: y.Path, Nil: nilc, Idx: y.Idx}
 			case y.Nil == bdd.True:
+				return &Ptr{Root: x.Root, Path: x.Path, Nil: nilc, Idx: x.Idx}
+			case x.Root == y.Root && x.Path == y.Path && x.Idx == nil && y.Idx == nil:
 				return &Ptr{Root: x.Root, Path: x.Path, Nil: nilc}
-			case x.Root == y.Root && x.Path == y.Path:
-				return &Ptr{Root: x.Root, Path: x.Path, Nil: nilc}
+			case x.Root == y.Root && x.Path == y.Path && x.Idx != nil && y.Idx != nil && len(x.Idx) == len(y.Idx):
+				return &Ptr{Root: x.Root, Path: x.Path, Nil: nilc, Idx: c.Mux(p, x.Idx, y.Idx)}
 			}
 		}
 	case *Iface:
